@@ -66,7 +66,7 @@ pub fn main(args: &Args) -> i32 {
         }
         gate.disarm_all();
         session_probe(&mut rep);
-        if shard == 0 { rtr_timing_probe(&mut rep); initial_probe(&mut rep); }
+        if shard == 0 { rtr_timing_probe(&mut rep); initial_probe(&mut rep); burst_probe(&mut rep); }
     }
     for (idx, b) in behaviours.iter().enumerate() {
         if idx % nshards != shard { continue }
@@ -701,6 +701,52 @@ fn initial_probe(rep: &mut Report) {
             rep.violation("C15", "data-before-first-run/rtr", format!("RTR reset query answered with a cache response although no validation run has completed ({state})"),
                 json!({"state": state}), json!({"items": a.items.len()}));
         } else { rep.nontrivial("C15", format!("initial|{state}|rtr|{}", a.kind)); }
+    }
+}
+
+/// C16 under bursts: several data-changing runs complete within one second (the Last-Modified time has whole seconds and
+/// is pushed ahead of the clock so that it differs per data set, history.rs:107-123).  After every run the validators
+/// of every earlier data set are presented (date only, both, ETag only): none of them may get 304; the current ones must.
+fn burst_probe(rep: &mut Report) {
+    for round in 0..6 {
+        let mut fx = Fixture::start(|c| { c.history_size = 10; });
+        let port = fx.http_port;
+        // start right after a second boundary so that the burst fits into one second
+        let now = std::time::SystemTime::now().duration_since(std::time::UNIX_EPOCH).unwrap();
+        std::thread::sleep(Duration::from_millis(1000 - now.subsec_millis() as u64 + 5));
+        let t0 = Instant::now();
+        let mut issued: Vec<(usize, String, String)> = Vec::new();       // (version, etag, last-modified)
+        let mut in_one_second = 0;
+        for v in 1..=5usize {
+            if fx.process_once(&slurm(&concrete((1 + (v + round) % 3) as i64)), v == 1).is_err() { rep.divergence("C16", "burst probe: run failed"); return }
+            if t0.elapsed() < Duration::from_millis(950) { in_one_second = v; }
+            let cur = match http_get(port, "/json", &[]) { Ok(r) if r.status == 200 => r, _ => { rep.divergence("C16", "burst probe: no data"); return } };
+            let (etag, date) = (cur.header("etag").unwrap_or("").to_string(), cur.header("last-modified").unwrap_or("").to_string());
+            for (old, oetag, odate) in issued.iter() {
+                if *oetag == etag { continue }          // the same data set again (nothing changed): 304 is right
+                for mode in ["date", "both", "etag"] {
+                    let mut headers: Vec<(&str, &str)> = Vec::new();
+                    if mode != "date" { headers.push(("If-None-Match", oetag.as_str())); }
+                    if mode != "etag" { headers.push(("If-Modified-Since", odate.as_str())); }
+                    rep.eval("C16");
+                    match http_get(port, "/json", &headers) {
+                        Ok(r) if r.status == 304 => rep.violation("C16", &format!("burst/stale-validators-304/{mode}"),
+                            format!("the server is at data set {v} (ETag {etag}, Last-Modified {date}); a client holding data set {old} (ETag {oetag}, Last-Modified {odate}) revalidates ({mode}) and gets 304"),
+                            json!({"probe": "burst", "runs_within_the_first_second": in_one_second, "mode": mode}),
+                            json!({"status": 304, "current": [etag, date], "presented": [oetag, odate]})),
+                        Ok(_) => {}
+                        Err(e) => rep.divergence("C16", format!("burst probe: {e}")),
+                    }
+                }
+            }
+            rep.eval("C16");
+            if let Ok(r) = http_get(port, "/json", &[("If-None-Match", etag.as_str()), ("If-Modified-Since", date.as_str())]) {
+                if r.status != 304 { rep.divergence("C16", format!("burst probe: current validators answered {}", r.status)); }
+            }
+            issued.push((v, etag, date));
+        }
+        if in_one_second >= 3 { rep.nontrivial("C16", format!("burst|{round}|{in_one_second}")); rep.add_note("C16", "bursts_with_three_runs_in_one_second", 1); }
+        rep.add_note("C16", "bursts", 1);
     }
 }
 
